@@ -88,12 +88,16 @@ def flat_chain(repo: Repo, m: Module, fn: ast.FunctionDef, subject: str) -> List
     """Top-level class-dispatch chain of ``fn`` on ``subject``; a final ``else`` consisting of one nested chain on
     the same subject is flattened into it (the repo's noisy hooks use that shape)."""
     head = None
+    best = -1
     for st in fn.body:
         if isinstance(st, ast.If):
             b = Branch(st.test, st.body, st)
             if parse_test(repo, m, st.test, b) and b.subject == subject and (b.exact or b.closure):
-                head = st
-                break
+                # the dispatch chain is the longest if/elif chain on the subject; a one-armed prelude (`if isinstance(op, X): pos = ...`)
+                # in front of it is not the dispatch
+                ln = len(list(chain_of(st)))
+                if ln > best:
+                    head, best = st, ln
     if head is None:
         raise AnalysisError(f"{m.rel}::{qualname(fn)}: no class-dispatch chain on '{subject}' found")
     out: List[Branch] = []
@@ -262,6 +266,18 @@ def rule_qindex(ctx: Ctx, rel: str, cname: str, hooks: List[str]):
         ctx.touch(m, fn)
         names = hook_names(fn, pos)
         qn, on = names["q_index"], names["op"]
+        # a backend primitive never receives a raw register number: positions come from q_index (photons first, then emitters), and the
+        # number of an emitter register is the position of the like-numbered photon
+        for bc in [x for x in calls_in(fn) if call_attr(x) in ROLE_BY_CALLEE]:
+            flat = []
+            for a_ in list(bc.args) + [k.value for k in bc.keywords]:
+                flat += list(a_.elts) if isinstance(a_, (ast.List, ast.Tuple)) else [a_]
+            for a_ in flat:
+                if isinstance(a_, ast.Attribute) and isinstance(a_.value, ast.Name) and a_.value.id == on and a_.attr in ("register", "control", "target"):
+                    ctx.fail("sibling.qindex", m, bc,
+                             f"`{short(bc)}` hands the raw register number `{norm(a_)}` to a backend primitive that takes a qubit position; positions come from "
+                             f"`{qn}({norm(a_)}, {on}.{'reg_type' if a_.attr == 'register' else a_.attr + '_type'})` — an emitter's number is the position of the "
+                             f"like-numbered photon", func=f"{cname}.{hook}", construct=f"{call_attr(bc)}(<- raw {norm(a_)})")
         for c in qindex_calls(fn, qn):
             role = qindex_role(c, on)
             if role is None or role not in PAIRS:
